@@ -1923,6 +1923,17 @@ vorbis_comment *ov_comment(OggVorbis_File *vf,int link){
   }
 }
 
+/* The float->int conversions behind vorbis_ftoi() answer INT_MIN for
+   anything beyond the int range (x86 cvtsd2si/fist), which the clipping
+   in ov_read_filter() then took for a negative sample.  Keep the scaled
+   sample inside a range every conversion handles; anything out here is
+   clipped to a rail anyway. */
+static float _ftoi_range(float f){
+  if(f>65536.f)return(65536.f);
+  if(f<-65536.f)return(-65536.f);
+  return(f);
+}
+
 static int host_is_big_endian() {
   ogg_int32_t pattern = 0xfeedface; /* deadbeef */
   unsigned char *bytewise = (unsigned char *)&pattern;
@@ -2022,7 +2033,7 @@ long ov_read_filter(OggVorbis_File *vf,char *buffer,int length,
         vorbis_fpu_setround(&fpu);
         for(j=0;j<samples;j++)
           for(i=0;i<channels;i++){
-            val=vorbis_ftoi(pcm[i][j]*128.f);
+            val=vorbis_ftoi(_ftoi_range(pcm[i][j]*128.f));
             if(val>127)val=127;
             else if(val<-128)val=-128;
             *buffer++=val+off;
@@ -2039,7 +2050,7 @@ long ov_read_filter(OggVorbis_File *vf,char *buffer,int length,
               float *src=pcm[i];
               short *dest=((short *)buffer)+i;
               for(j=0;j<samples;j++) {
-                val=vorbis_ftoi(src[j]*32768.f);
+                val=vorbis_ftoi(_ftoi_range(src[j]*32768.f));
                 if(val>32767)val=32767;
                 else if(val<-32768)val=-32768;
                 *dest=val;
@@ -2055,7 +2066,7 @@ long ov_read_filter(OggVorbis_File *vf,char *buffer,int length,
               float *src=pcm[i];
               short *dest=((short *)buffer)+i;
               for(j=0;j<samples;j++) {
-                val=vorbis_ftoi(src[j]*32768.f);
+                val=vorbis_ftoi(_ftoi_range(src[j]*32768.f));
                 if(val>32767)val=32767;
                 else if(val<-32768)val=-32768;
                 *dest=val+off;
@@ -2070,7 +2081,7 @@ long ov_read_filter(OggVorbis_File *vf,char *buffer,int length,
           vorbis_fpu_setround(&fpu);
           for(j=0;j<samples;j++)
             for(i=0;i<channels;i++){
-              val=vorbis_ftoi(pcm[i][j]*32768.f);
+              val=vorbis_ftoi(_ftoi_range(pcm[i][j]*32768.f));
               if(val>32767)val=32767;
               else if(val<-32768)val=-32768;
               val+=off;
@@ -2084,7 +2095,7 @@ long ov_read_filter(OggVorbis_File *vf,char *buffer,int length,
           vorbis_fpu_setround(&fpu);
           for(j=0;j<samples;j++)
             for(i=0;i<channels;i++){
-              val=vorbis_ftoi(pcm[i][j]*32768.f);
+              val=vorbis_ftoi(_ftoi_range(pcm[i][j]*32768.f));
               if(val>32767)val=32767;
               else if(val<-32768)val=-32768;
               val+=off;
